@@ -1194,6 +1194,16 @@ theorem C18_nested_call_is_invisible (bodies : Nat → K → Prog K R) (s : Nat 
 
 end C18
 
+section C18ex
+open Run
+-- three calls in flight on one module, stepped in an arbitrary order: each ends with its own result
+example :
+    let s := interleaveN (fun _ => exBody) [0, 1, 2, 1, 0, 2, 2, 0, 1, 1, 0, 2, 0, 1, 2, 0, 1, 2, 0, 1, 2, 0, 1, 2, 0, 1, 2, 0, 1, 2]
+              (fun i => init exBody (if i = 2 then 1 else 0))
+    (s 0).pending = some 10 ∧ (s 1).pending = some 10 ∧ (s 2).pending = (steps exBody 10 (init exBody 1)).pending := by
+  refine ⟨by rfl, by rfl, by rfl⟩
+end C18ex
+
 /-! ## C19 – alternative spellings elaborate to the same expression -/
 
 /-- operator spellings and constructor spellings elaborate to the very same expression object
